@@ -830,16 +830,22 @@ class NumberOfLinesIsRecomputed(ScanCheck):
                         sites.append((_ast.unparse(t), _ast.unparse(n.value) if n.value is not None else ''))
             if isinstance(n, _ast.Call) and _ast.unparse(n.func) == 'setattr' and len(n.args) >= 2 and 'n_o_l' in _ast.unparse(n.args[1]):
                 sites.append(('setattr', _ast.unparse(n)))
-        out.append(('one_assignment_from_the_current_text', sites == [('text.n_o_l', '_calc_number_of_lines(text.text)')], {'sites': str(sites)}))
-        # that assignment is the unconditional first statement of a loop over `texts` in filter_localized_texts
+        # that assignment is an unconditional top-level statement of a loop over the candidate list in
+        # filter_localized_texts: <v>.n_o_l = _calc_number_of_lines(<v>.text) for the loop variable <v>
         flt = mod.classes['LocalizationStorage']
         f = next((m for m in flt.body if isinstance(m, _ast.FunctionDef) and m.name == 'filter_localized_texts'), None)
-        loop_ok = False
+        loop_ok, shaped = False, []
         if f is not None:
             for n in _ast.walk(f):
-                if isinstance(n, _ast.For) and _ast.unparse(n.iter) == 'texts' and _ast.unparse(n.target) == 'text' and n.body \
-                        and _ast.unparse(n.body[0]) == 'text.n_o_l = _calc_number_of_lines(text.text)':
-                    loop_ok = True
+                if isinstance(n, _ast.For) and isinstance(n.target, _ast.Name) and isinstance(n.iter, _ast.Name):
+                    v = n.target.id
+                    for stmt in n.body:
+                        if isinstance(stmt, _ast.Assign) and len(stmt.targets) == 1 \
+                                and _ast.unparse(stmt.targets[0]) == f'{v}.n_o_l' \
+                                and _ast.unparse(stmt.value) == f'_calc_number_of_lines({v}.text)':
+                            loop_ok = True
+                            shaped.append((_ast.unparse(stmt.targets[0]), _ast.unparse(stmt.value)))
+        out.append(('one_assignment_from_the_current_text', len(sites) == 1 and sites == shaped, {'sites': str(sites)}))
         out.append(('computed_for_every_candidate_of_the_request', loop_ok, {}))
         return out
 
